@@ -105,8 +105,36 @@ CallGroup(g, A, done, nsamp, kg, mm) ==
                   /\ WithinMissing(Cardinality({s \in 1..nsamp : c[s] \notin {65, 67, 71, 84}}), nsamp, mm)
        found == {p \in real : good(p)}
        kmers == UNION {UNION {{fb(i, p), RevComp(fb(i, p)), fa(i, p), RevComp(fa(i, p))} : i \in 1..Len(v)} : p \in found}
-   IN IF oob THEN <<<<>>, {}, TRUE>>
-      ELSE <<[i \in 1..Cardinality(found) |-> col(SetToSortSeq(found, <)[i])], kmers, FALSE>>
+   IN IF oob THEN <<<<>>, {}, TRUE, <<>>>>
+      ELSE <<[i \in 1..Cardinality(found) |-> col(SetToSortSeq(found, <)[i])], kmers, FALSE, SetToSortSeq(found, <)>>
+
+\* ---- positioning on a reference genome (positioning.rs) ---------------------------------------------------------
+\* The reference is one sequence of bytes (upper-cased on reading).  Every (k-1)-mer of A/C/G/T remembers the index
+\* of the base after it, for its first three occurrences.
+RefUpper(g) == [i \in 1..Len(g) |-> ToUpper(g[i])]
+RefPositions(g, kg, w) ==
+   LET occ == {n \in 0..(Len(g) - kg) : /\ \A j \in 1..kg : g[n + j] \in {65, 67, 71, 84}
+                                          /\ [x \in 1..kg |-> Enc(g[n + x])] = w}
+       first3 == {n \in occ : Cardinality({m \in occ : m < n}) < 3}
+   IN {n + kg : n \in first3}
+\* votes of a set of paths for "index after the first node if the path lay on the genome": one vote per path, window
+\* and remembered occurrence; the winner needs a strict majority over every other value and at least 10 votes
+Votes(seqs, g, kg) ==
+   UNION {UNION {{<<i, pos, r>> : r \in RefPositions(g, kg, SubSeq(seqs[i], pos + 1, pos + kg))}
+                 : pos \in 0..(Len(seqs[i]) - kg)} : i \in 1..Len(seqs)}
+Winner(V) ==
+   LET vals == {v[3] - v[2] : v \in V}
+       cnt(x) == Cardinality({v \in V : v[3] - v[2] = x})
+       top == {x \in vals : \A y \in vals : cnt(x) >= cnt(y)}
+   IN IF Cardinality(top) = 1 /\ cnt(CHOOSE x \in top : TRUE) >= 10
+      THEN <<TRUE, CHOOSE x \in top : TRUE, cnt(CHOOSE x \in top : TRUE)>> ELSE <<FALSE, 0, 0>>
+\* <<positioned, position, forward>>
+ScanVariants(v, g, kg) ==
+   LET fw == Winner(Votes([i \in 1..Len(v) |-> v[i].seq], g, kg))
+       rv == Winner(Votes([i \in 1..Len(v) |-> RevComp(v[i].seq)], g, kg))
+   IN IF fw[1] /\ rv[1] THEN (IF fw[3] = rv[3] THEN <<FALSE, 0, TRUE>> ELSE IF fw[3] > rv[3] THEN <<TRUE, fw[2], TRUE>> ELSE <<TRUE, rv[2], FALSE>>)
+      ELSE IF fw[1] THEN <<TRUE, fw[2], TRUE>> ELSE IF rv[1] THEN <<TRUE, rv[2], FALSE>> ELSE <<FALSE, 0, TRUE>>
+CompLetter(c) == CASE c = 65 -> 84 [] c = 84 -> 65 [] c = 67 -> 71 [] c = 71 -> 67 [] OTHER -> c
 
 \* ---- the whole call --------------------------------------------------------------------------------------------
 LoCall(T, maxDepth, mm, maxIndelKmers) ==
@@ -130,4 +158,55 @@ LoCall(T, maxDepth, mm, maxIndelKmers) ==
                ELSE LET r == CallGroup(g, A, done, nsamp, kg, mm) IN go(i + 1, done \cup r[2], cols \o r[1], r[3])
        snps == go(1, {}, <<>>, FALSE)
    IN [columns |-> snps.cols, panic |-> snps.panic, records |-> records, groups |-> Unordered(FG), indels |-> Unordered(FI)]
+
+\* The same with a reference genome (-r): every group that yields a SNP is placed by ScanVariants; its SNPs go to
+\* genome index position + (p - kg) (forward) or position + (L - p - kg - 1) with the column complemented (reverse);
+\* an index already taken keeps its first column.  Output (output_snps.rs): the SNPs inside the genome in order,
+\* one VCF record each (REF = genome base, N if not A/C/G/T/N; ALT = the other bases present, in byte order;
+\* genotype = index, '.' for '-' and N), and per sample the genome with its bases substituted.
+LoCallRef(T, maxDepth, mm, maxIndelKmers, genome) ==
+   LET kg == T.k - 1
+       nsamp == Len(T.names)
+       g == RefUpper(genome)
+       A == AllFulls(T)
+       B == BuiltGroupsSeq(T, maxDepth)
+       isTwoLen(h) == Len(h[3]) = 2 /\ Len(h[3][1].seq) # Len(h[3][2].seq)
+       FI == {h \in B : isTwoLen(h) /\ (Len(h[3][1].seq) <= 2 * kg \/ Len(h[3][2].seq) <= 2 * kg)}
+       FG == {h \in B : Len(h[3]) >= 2 /\ ~isTwoLen(h)}
+       der == Dereplicate(FI)
+       claimed == der[2]
+       records == UNION {LET r == IndelRecord(h, A, nsamp, kg, mm) IN IF r = <<>> THEN {} ELSE {r[1]} : h \in der[1]}
+       pruned == {h \in {Pruned(x, claimed, kg, maxIndelKmers) : x \in FG} : Len(h[3]) >= 1}
+       order == SetToSortSeq(pruned, RatioLess)
+       \* placed: function genome index -> column
+       RECURSIVE place(_, _, _, _, _, _)
+       place(r, where, L, i, placed, dummy) ==
+          IF i > Len(r[4]) THEN placed
+          ELSE LET p == r[4][i]
+                   at == IF where[3] THEN where[2] + (p - kg) ELSE where[2] + (L - p - kg - 1)
+                   col == IF where[3] THEN r[1][i] ELSE [s \in 1..nsamp |-> CompLetter(r[1][i][s])]
+               IN place(r, where, L, i + 1, IF at \in DOMAIN placed THEN placed ELSE [x \in DOMAIN placed \cup {at} |-> IF x = at THEN col ELSE placed[x]], dummy)
+       RECURSIVE go(_, _, _, _)
+       go(i, done, placed, panic) ==
+          IF i > Len(order) \/ panic THEN [placed |-> placed, panic |-> panic]
+          ELSE LET h == order[i] IN
+               IF h[1] \in claimed \/ RevComp(h[2]) \in claimed \/ Len(h[3]) < 2 THEN go(i + 1, done, placed, panic)
+               ELSE LET r == CallGroup(h, A, done, nsamp, kg, mm) IN
+                    IF r[3] \/ Len(r[4]) = 0 THEN go(i + 1, done \cup r[2], placed, r[3])
+                    ELSE LET where == ScanVariants(h[3], g, kg) IN
+                         go(i + 1, done \cup r[2], IF where[1] THEN place(r, where, Len(h[3][1].seq), 1, placed, 0) ELSE placed, FALSE)
+       res == go(1, {}, [x \in {} |-> <<>>], FALSE)
+       inside == {x \in DOMAIN res.placed : x >= 0 /\ x < Len(g)}
+       posSeq == SetToSortSeq(inside, <)
+       refBase(x) == IF g[x + 1] \in {65, 84, 71, 67, 78} THEN g[x + 1] ELSE 78
+       vcfOf(x) == LET col == res.placed[x]
+                       rb == refBase(x)
+                       alts == SetToSortSeq({col[s] : s \in 1..nsamp} \ {rb, 45, 78}, <)
+                       idxOf(c) == CHOOSE j \in 1..Len(alts) : alts[j] = c
+                   IN [pos |-> x + 1, ref |-> rb, alt |-> alts,
+                       gts |-> [s \in 1..nsamp |-> IF col[s] = rb THEN 0 ELSE IF col[s] \in {45, 78} THEN -1 ELSE idxOf(col[s])]]
+   IN [panic |-> res.panic, records |-> records,
+       columns |-> [i \in 1..Len(posSeq) |-> res.placed[posSeq[i]]],
+       vcf |-> [i \in 1..Len(posSeq) |-> vcfOf(posSeq[i])],
+       pseudo |-> [s \in 1..nsamp |-> [x \in 1..Len(g) |-> IF (x - 1) \in inside THEN res.placed[x - 1][s] ELSE refBase(x - 1)]]]
 =============================================================================
